@@ -145,9 +145,40 @@ def oracle_blocksz(ctx, n, sizes=None, sig_known=True):
         if len(samples) < 2:
             samples.append({'oracle': 'C12 blocksz', 'file_bytes': len(log.data), 'blocksizes': bss, 'stdout_bytes': len(out0)})
         os.unlink(p)
+    # messages whose later lines are longer than the printers' 2056-byte buffer: at block sizes up to the buffer size a line
+    # reaches the printer in small parts, above it in parts larger than the buffer — the bytes printed must not depend on that
+    for k in range(max(3, n // 6)):
+        msgs = []
+        t = 1672531200 + rng.below(1000)
+        for i in range(rng.range(3, 8)):
+            t += rng.pick([0, 1, 5])
+            m = e2e.fmt_ts(t).encode() + b' m%02d ' % i + e2e.text_line(rng, 5, 40, weird=False) + b'\n'
+            for _ in range(rng.below(4)):
+                m += b'  ' + e2e.text_line(rng, 0, rng.pick([30, 30, 2500, 5000]), weird=False) + b'\n'
+            msgs.append(m)
+        data = b''.join(msgs)
+        p = os.path.join(ctx.work, 'c12_long_%d.log' % k)
+        open(p, 'wb').write(data)
+        rc0, out0, err0, _ = run_plain(p)
+        ev += 1
+        for bs in [256, 1024, 2048, 2056, 2057, 4096, 0x8000]:
+            for extra in ([], ['-l']):
+                if extra:
+                    rcx, outx, _, _ = run_plain(p, extra)
+                    ev += 1
+                else:
+                    rcx, outx = rc0, out0
+                rc, out, err, _ = run_plain(p, ['--blocksz', str(bs)] + extra)
+                ev += 1
+                if (rc, out) != (rcx, outx):
+                    fails.append({'signature': 'blocksz:stdout-differs-from-default', 'detail': f'long continuation lines, --blocksz {bs} {extra}: rc={rc} vs {rcx}; ' + first_diff(out, outx),
+                                  'args': e2e.BASE_ARGS + ['--blocksz', str(bs)] + extra + ['FILE'], 'file_hex': small_hex(data)})
+        if out0 != data:
+            fails.append({'signature': 'blocksz:default-run-differs-from-file', 'detail': first_diff(out0, data), 'args': e2e.BASE_ARGS + ['FILE'], 'file_hex': small_hex(data)})
+        os.unlink(p)
     return {'evaluations': ev, 'distinct_nontrivial': ev, 'failures': fails, 'samples': samples,
-            'rule': f'{n} generated text logs x block sizes from {sizes}; stdout and exit status must equal the default-size run; '
-                    'distinct = (file, blocksz) runs'}
+            'rule': f'{n} generated text logs x block sizes from {sizes}, plus logs with continuation lines of up to 5000 bytes at block sizes around the 2056-byte print '
+                    'buffer (with and without a prepended date); stdout and exit status must equal the default-size run; distinct = (file, blocksz) runs'}
 
 
 def known_gate_witnesses(ctx):
